@@ -69,8 +69,8 @@ PROPS = {
                  "model tied by differential run (the sweep still tests the round trip on the implementation).",
  },
  "C18": {
-  "modules": ["OsmoVerif.Props.C18"],
-  "min_theorems": 9,
+  "modules": ["OsmoVerif.Props.C18", "OsmoVerif.Props.TieGenMint"],
+  "min_theorems": 24,
   "fingerprints": [],
   "engines": [{"name": "mint", "kind": "app", "n": {"quick": 3000, "thorough": 60000}, "shards": {"quick": 4, "thorough": 16}}],
   "rule": "histories = random valid parameter set (proportions summing to 1 with 1..18 decimals, reduction factor/period, start epoch, 0..4 weighted "
@@ -128,8 +128,8 @@ PROPS = {
                  "ApplyFuncIfNoError by differential run incl. the partial state of panicking blocks.",
  },
  "C15": {
-  "modules": ["OsmoVerif.Props.C15"],
-  "min_theorems": 12,
+  "modules": ["OsmoVerif.Props.C15", "OsmoVerif.Props.TieGenAccum"],
+  "min_theorems": 15,
   "fingerprints": ["Accum.*"],
   "engines": [{"name": "accum", "kind": "pure", "n": {"quick": 200000, "thorough": 1500000}, "shards": {"quick": 4, "thorough": 16}}],
   "rule": "independent histories (reset) of 20-250 API calls on the real accum package over a MemDB store: <=3 accumulators, <=6 position names, "
@@ -310,8 +310,8 @@ PROPS = {
   "explanation": "Inv = active liquidity / tick gross+net / stored-tick set / price-tick agreement / empty pool / id uniqueness, preserved by every op incl. the swap loop; reachable_inv by induction",
  },
  "C10": {
-  "modules": ["OsmoVerif.Props.C10"],
-  "min_theorems": 28,
+  "modules": ["OsmoVerif.Props.C10", "OsmoVerif.Props.TieGenTwap"],
+  "min_theorems": 36,
   "fingerprints": ["Twap.*"],
   "engines": [{"name": "twap", "kind": "app", "n": {"quick": 5000, "thorough": 40000}, "shards": {"quick": 4, "thorough": 16}, "env": NO_EXPORT_IMPORT}],
   "rule": "two kinds of histories, half of the op budget each.  SINGLE-POOL: a fresh balancer (2 or 3 assets; random / unit / power-of-two / extreme balances and weights) or "
@@ -348,8 +348,8 @@ PROPS = {
                  "model tied to the keeper by differential run through the real app",
  },
  "C05": {
-  "modules": ["OsmoVerif.Props.C05"],
-  "min_theorems": 24,
+  "modules": ["OsmoVerif.Props.C05", "OsmoVerif.Props.TieGenRouter"],
+  "min_theorems": 27,
   "fingerprints": [],
   "engines": [{"name": "router", "kind": "app", "n": {"quick": 2000, "thorough": 40000}, "shards": {"quick": 4, "thorough": 16}}],
   "rule": "histories = 2-3 balancer + 1-2 stableswap + 2-3 concentrated pools (full-range + narrow positions) over 4-5 denoms, 3-10 prior swaps/joins/positions, "
@@ -371,8 +371,8 @@ PROPS = {
                  "taker fee = amount*fee rounded up (exact-in) / exactly ceil(amount/(1-fee)) (exact-out), whitelist and per-pair override semantics; model tied to the real msg server by differential run.",
  },
  "C09": {
-  "modules": ["OsmoVerif.Props.C09"],
-  "min_theorems": 17,
+  "modules": ["OsmoVerif.Props.C09", "OsmoVerif.Props.TieGenIncentives"],
+  "min_theorems": 20,
   "fingerprints": ["Incentives.*"],
   "engines": [{"name": "incentives", "kind": "app", "n": {"quick": 20000, "thorough": 300000}, "shards": {"quick": 4, "thorough": 16}, "env": NO_EXPORT_IMPORT}],
   "rule": "histories = one chain state each: 9 pool-owned empty perpetual gauges (imported as creategauge lines) + random lock gauges (perpetual / 1-6 epochs, "
@@ -398,8 +398,8 @@ PROPS = {
                  "finished => filled = numEpochs is refuted by a witness); failing operations are no-ops. Model tied to the real keepers by differential run.",
  },
  "C04": {
-  "modules": ["OsmoVerif.Props.C04"],
-  "min_theorems": 35,
+  "modules": ["OsmoVerif.Props.C04", "OsmoVerif.Props.TieGenGammMath"],
+  "min_theorems": 51,
   "fingerprints": ["GammMath.*", "Osmomath.Pow", "Osmomath.PowApprox", "Osmomath.AbsDifferenceWithSign", "Osmomath.BinarySearch*", "Osmomath.ErrTolerance_*"],
   "engines": [{"name": "gammmath", "kind": "pure", "n": {"quick": 6000, "thorough": 150000}, "shards": {"quick": 4, "thorough": 16}}],
   "rule": "in-memory balancer and stableswap pools (2-8 assets; reserves 1..10^30 balanced / strongly unbalanced / tiny; user weights 1..2^20-1, "
@@ -422,8 +422,8 @@ PROPS = {
                  "(calc and mutating variants, post-state included); the oracle evaluates the continuum clauses with tolerances derived from powPrecision",
  },
  "C11": {
-  "modules": ["OsmoVerif.Props.C11", "OsmoVerif.Props.C11Refresh"],
-  "min_theorems": 72,
+  "modules": ["OsmoVerif.Props.C11", "OsmoVerif.Props.C11Refresh", "OsmoVerif.Props.TieGenSuperfluid"],
+  "min_theorems": 75,
   "fingerprints": [],
   "engines": [{"name": "superfluid", "kind": "app", "n": {"quick": 20000, "thorough": 200000}, "shards": {"quick": 4, "thorough": 16}, "env": NO_EXPORT_IMPORT}],
   "rule": "history 0 of every shard is the scripted witness of the recorded findings; then histories of four classes (random 30%, dust 25%, slash 30%, "
